@@ -418,7 +418,11 @@ def run_check(prop, tier, seed, only=None, nproc=None, verbose=True):
   unconfirmed = []
   seen = set()
   for r in results:
+    if len(confirmed) >= 4:
+      break
     for v in r.get('violations', []):
+      if len(confirmed) >= 4:
+        break
       if v.get('values') is None:
         unconfirmed.append((r, v, 'no model'))
         continue
